@@ -28,6 +28,8 @@ type symFS struct {
 	reads     []string
 	failRead  int // fail the n-th ReadFile (1-based) with an I/O error; 0 = never
 	failFind  bool
+	failFindN int // fail the n-th directory listing (1-based); 0 = none
+	nFind     int
 	failWrite int // fail the n-th WriteFile; 0 = never
 	tornLen   int // bytes left behind by a failed write (-1: file untouched)
 	nRead     int
@@ -73,7 +75,8 @@ func (f *symFS) ReadFile(path string) ([]byte, error) {
 }
 
 func (f *symFS) FindWithPrefixAndSuffix(prefix, suffix string) ([]string, error) {
-	if f.failFind {
+	f.nFind++
+	if f.failFind || f.failFindN == f.nFind {
 		return nil, &ioFault{"glob"}
 	}
 	var out []string
